@@ -84,7 +84,7 @@ class PcapNg:
             out.append(self.dsb(b[1]) if isinstance(b, tuple) else getattr(self, b)())
         out.append(self.idb())
         if second_if is not None:
-            w2 = PcapNg(le=(self.e == "<"), tsresol=second_if[0], tsoffset=second_if[1])
+            w2 = PcapNg(le=(self.e == "<"), tsresol=second_if[0], tsoffset=second_if[1], snaplen=self.snaplen)
             out.append(w2.idb())
         for b in blocks:
             k = b[0]
@@ -112,13 +112,23 @@ def units_per_second(tsresol):
     return 2 ** (tsresol & 0x7F) if tsresol & 0x80 else 10 ** tsresol
 
 
-def pcapng_bytes(pkts, le=True, tsresol=None, tsoffset=None, dsbs=(), extra=(), pre_idb=(), shb_opts=False, second_if=None, spb=(), packet_block=None):
+def sll_frame():
+    """a Linux cooked-capture (LINKTYPE_LINUX_SLL = 113) frame: 16-byte pseudo header + an IPv4 / UDP DNS query that belongs to no connection"""
+    ip = bytes.fromhex("4500002c000100004011") + b"\x00\x00" + bytes([10, 9, 9, 1, 10, 9, 9, 2])
+    udp = struct.pack("!HHHH", 53000, 53, 24, 0) + bytes.fromhex("abcd01000001000000000000") + b"\x00\x00\x01\x00"
+    return struct.pack("!HHH8sH", 0, 1, 6, b"\x02\x00\x00\x00\x00\x07\x00\x00", 0x0800) + ip + udp
+
+
+def pcapng_bytes(pkts, le=True, tsresol=None, tsoffset=None, dsbs=(), extra=(), pre_idb=(), shb_opts=False, second_if=None, spb=(), packet_block=None,
+                 snaplen=0x40000, cooked_first=False):
     """pkts: list of (ts_us:int, frame) -- or (ts_num, ts_den_per_s ...) handled by caller.
     dsbs: list of (position, text) -- position = index in pkts before which the DSB is written (len(pkts) = end)
     extra: list of (position, kind)
     spb: indices of packets stored as Simple Packet Blocks (no timestamp)
     packet_block: None, or the drops count: every packet is stored as an obsolete Packet Block (type 2) instead of an Enhanced one"""
-    w = PcapNg(le=le, tsresol=tsresol, tsoffset=tsoffset, shb_opts=shb_opts)
+    # cooked_first (needs second_if): the FIRST interface is a cooked "any" pseudo-interface (another link type) that only carries one packet of
+    # no connection; every packet of the capture proper was captured on the second (Ethernet) interface
+    w = PcapNg(le=le, tsresol=tsresol, tsoffset=tsoffset, shb_opts=shb_opts, snaplen=snaplen, linktype=113 if cooked_first else 1)
     ups = units_per_second(tsresol)
     off = tsoffset or 0
     blocks = []
@@ -138,7 +148,9 @@ def pcapng_bytes(pkts, le=True, tsresol=None, tsoffset=None, dsbs=(), extra=(), 
         if i in spb:                                   # this packet was stored as a Simple Packet Block: it has no timestamp in the file
             blocks.append(("spbpkt", frame))
             continue
-        if second_if is not None and i % 2 == 1:      # every second packet was captured on a second interface with its own resolution / offset
+        if cooked_first and i == 0:
+            blocks.append(("pkt", units, sll_frame()))
+        if second_if is not None and (i % 2 == 1 or cooked_first):      # every second packet was captured on a second interface with its own resolution / offset
             r2, o2 = second_if
             ups2, off2 = units_per_second(r2), (o2 or 0)
             if isinstance(ts_us, tuple):
